@@ -158,10 +158,18 @@ def split_qualified(c):
     return inner[:k], inner[k+4:], meth
 
 # ---------------- program ----------------
+REPR = {'nf_nonzero': False, 'free_ends_nonzero': False}
+
+
 def scan_enums(src_root):
     import glob, os
     for p in glob.glob(os.path.join(src_root, '**', '*.rs'), recursive=True):
         txt = open(p).read()
+        # representation details the symbolic-state constructor has to follow (field types of the arena's own data)
+        m_ = re.search(r'\bNextFree\(\s*([^)]*)\)\s*,', txt)
+        if m_ and 'enum NodeData' in txt: REPR['nf_nonzero'] = 'NonZero' in m_.group(1)
+        m_ = re.search(r'first_free_slot:\s*([^,\n]*),', txt)
+        if m_ and 'struct Arena' in txt: REPR['free_ends_nonzero'] = 'NonZero' in m_.group(1)
         for m in re.finditer(r'\benum\s+([A-Za-z_0-9]+)\s*(<[^>]*>)?\s*\{(.*?)\n\}', txt, re.S):
             body = re.sub(r'//[^\n]*', '', m.group(3))
             body = re.sub(r'#\[[^\]]*\]', '', body)
